@@ -181,8 +181,8 @@ func (l *qListener) connect() (transfer.Conn, transfer.Conn, func(), error) {
 
 type tamperPlan struct {
 	toR, toS func([]byte) ([]byte, bool) // returns the altered bytes and whether the rest is cut off
-	tapS     []byte                     // what the sender wrote
-	tapR     []byte                     // what the sender was to read
+	tapS     []byte                      // what the sender wrote
+	tapR     []byte                      // what the sender was to read
 	mu       sync.Mutex
 }
 
